@@ -72,12 +72,22 @@ class ProjectContext(typ.NamedTuple):
 SECTION_HEADER_RE = re.compile(r"^\[\[?([^\[\]]+)\]\]?\s*(?:[#;].*)?$")
 
 
-def _find_current_version_line(raw_cfg_text: str) -> typ.Optional[str]:
-    """Find the line of the current_version key in the bumpver (or pycalver) section."""
+def _find_current_version_line(
+    raw_cfg_text: str, current_version: typ.Optional[str] = None
+) -> typ.Optional[str]:
+    """Find the line of the current_version key in the bumpver (or pycalver) section.
+
+    If the current_version is given, then a line with that value is preferred (the text
+    is scanned line by line, a multi-line value may quote something that looks like a section).
+    """
+    first_line: typ.Optional[str] = None
     is_config_section = False
     for line in raw_cfg_text.splitlines():
         if is_config_section and re.match(r"\s*current_version\s*[=:]", line):
-            return line
+            if current_version is None or current_version in line:
+                return line
+            elif first_line is None:
+                first_line = line
 
         # NOTE: a section header may be indented and may be followed by a comment
         section_match = SECTION_HEADER_RE.match(line.strip())
@@ -85,7 +95,7 @@ def _find_current_version_line(raw_cfg_text: str) -> typ.Optional[str]:
             section_name      = section_match.group(1).strip()
             is_config_section = section_name in ("pycalver", "bumpver", "tool.bumpver")
 
-    return None
+    return first_line
 
 
 def _pick_config_filepath(path: pl.Path) -> pl.Path:
@@ -536,17 +546,19 @@ def _parse_config(raw_cfg: RawConfig) -> Config:
 
 
 def _parse_current_version_default_pattern(raw_cfg: RawConfig, raw_cfg_text: str) -> str:
-    line = _find_current_version_line(raw_cfg_text)
-    if line is None:
-        raise ValueError("Could not parse 'current_version'")
-
     # NOTE: values from .cfg files may still carry their quotes here.
     #   Only the bare version is replaced, the quoting of the line is kept.
     current_version: str = raw_cfg['current_version'].strip("'\" ")
     version_pattern: str = raw_cfg['version_pattern'].strip("'\" ")
+
+    line = _find_current_version_line(raw_cfg_text, current_version)
+    if line is None:
+        raise ValueError("Could not parse 'current_version'")
+
     version_idx = line.find(current_version)
     if version_idx < 0:
-        return line
+        # NOTE: a pattern without the version would match, but never update the line
+        raise ValueError("Could not parse 'current_version' (value is not on the line of the key)")
 
     # NOTE: the pattern ends with the value. A trailing comment is not part
     #   of it (it may mention the version or contain brackets).
